@@ -7,7 +7,8 @@ shift
 out=${VERIF_MS_OUT:-multiseed_out}
 mkdir -p "$out"
 : > "$out/summary.txt"
-export VERIF_EVIDENCE_DIR="$PWD/$out/evidence" VERIF_REPLAY_DIR="$PWD/$out/replays"
+case "$out" in /*) abs="$out";; *) abs="$PWD/$out";; esac
+export VERIF_EVIDENCE_DIR="$abs/evidence" VERIF_REPLAY_DIR="$abs/replays"
 n=0
 for s in $seeds; do
   for id in "$@"; do
